@@ -389,6 +389,68 @@ def r8_writer_does_not_mutate(idx, r):
         r.ok("no-in-place-edit", f, msg="no entry of the collected values is edited in place")
 
 
+def r9_names_options_fields(idx, r):
+    """(a) a name that IS a current setting is never redirected by the renamer: every `(other, True)` return of renameSetting lies behind the
+    refusal `name in self._currentNames -> (name, False)`.  (b) whenever a Setting's option list grows, its schema is rebuilt before the method
+    returns (a setting whose enforced list started empty otherwise keeps its permissive schema).  (c) a constructor of the settings model that
+    stores a parameter into a field named like ANOTHER of its parameters has swapped two fields."""
+    rn = idx.method("armi.settings.settingsIO.SettingRenamer", "renameSetting")
+    nm = rn.params()[1]
+    n = 0
+    for x in [x for x in walk_local(rn.node) if isinstance(x, ast.Return) and isinstance(x.value, ast.Tuple) and len(x.value.elts) == 2]:
+        renamed = norm(x.value.elts[1]) == "True" or norm(x.value.elts[0]) != nm
+        if not renamed:
+            continue
+        n += 1
+        conds = {(norm(t), p) for t, p in path_conditions(rn.node, x)}
+        r.require((f"{nm} in self._currentNames", False) in conds or (f"{nm} not in self._currentNames", True) in conds, "renameSetting:current-names-win", rn, node=x,
+                  msg=f"`{norm(x)}` can be reached for a name that is a current setting: a setting whose name is also an unexpired old name of another setting is redirected on reading, so "
+                      "its value lands in the other setting")
+    if n < 1:
+        raise AnchorMissing("SettingRenamer.renameSetting: return (activeRename, True)")
+    st = idx.cls("armi.settings.setting.Setting")
+    g = 0
+    for name, f in st.methods.items():
+        grows = [c for c in iter_calls(f.node) if call_attr(c) in ("extend", "append", "insert") and norm(c.func.value) == "self.options"] + \
+                [s_.stmt for s_ in iter_stores(f.node) if s_.chain == "self.options" and s_.kind in ("aug", "assign") and name != "__init__"]
+        if not grows:
+            continue
+        g += 1
+        first = grows[0]
+
+        def ev(nd, first=first):
+            if nd is first:
+                return ["grown"]
+            if isinstance(nd, ast.Call) and dotted(nd.func) in ("self._setSchema",):
+                return ["schema"]
+            return []
+        fl = Flow(f.node, ev).run()
+        # schema rebuilt AFTER the growth: count schema events at exits minus those before the growth statement
+        before = fl.state_before(first) or {}
+        bad = [e for e in fl.normal_exits() if e.state.get("grown", (0, 0))[1] >= 1 and e.state.get("schema", (0, 0))[0] <= before.get("schema", (0, 0))[1]]
+        r.require(not bad, f"Setting.{name}:schema-rebuilt-after-options-grow", f, node=first,
+                  msg=f"Setting.{name} extends the option list without rebuilding the schema afterwards: for a setting with enforcedOptions whose own list started empty the permissive "
+                      "schema stays and values outside the options are accepted")
+    if g < 1:
+        raise AnchorMissing("Setting.addOptions: self.options.extend(...)")
+    k = 0
+    for mname in ("armi.settings.setting", "armi.settings.caseSettings", "armi.settings.settingsIO", "armi.physics.neutronics.crossSectionSettings"):
+        m = idx.modules.get(mname)
+        if m is None:
+            raise AnchorMissing(mname)
+        for f in m.all_funcs():
+            if f.name != "__init__" or f.cls is None:
+                continue
+            ps = set(f.params()[1:]) | {a.arg for a in f.node.args.kwonlyargs}
+            k += 1
+            sw = [s_ for s_ in iter_stores(f.node) if s_.kind == "assign" and s_.chain == f"self.{s_.attr}" and isinstance(s_.value, ast.Name) and s_.value.id in ps and s_.attr in ps and s_.attr != s_.value.id]
+            r.require(not sw, f"{f.qualname}:fields-take-their-own-argument", f, node=sw[0].stmt if sw else None,
+                      msg=f"`{norm(sw[0].stmt) if sw else ''}` stores one constructor argument into the field named like another: the value read from (or assigned through) the settings ends up "
+                          "in the other field, and a write/read cycle swaps it back")
+    if k < 4:
+        raise AnalysisError(f"only {k} constructors of the settings model found")
+
+
 def run(idx, chk):
     chk.explanation = (
         "C17: schema validation dominating the store in Setting.setValue and the frozen writers of Setting._value; the renamed name being the one "
@@ -408,3 +470,5 @@ def run(idx, chk):
                  necessary="'settings left at default stay at default' in every style: the full style writes defaults and reading validates them")
     chk.run_rule("R17.8", "the writer never edits in place a value it obtained from setting.dump()", lambda r: r8_writer_does_not_mutate(idx, r), floor=1,
                  necessary="a settings object is the same before and after being written; written and original must agree")
+    chk.run_rule("R17.9", "current names are never renamed; a grown option list rebuilds the schema; constructor fields take their own argument", lambda r: r9_names_options_fields(idx, r), floor=6,
+                 necessary="every setting reads back under its own name with its own value, and a type/option violation is rejected")
